@@ -6,7 +6,7 @@
 // params
 //   cap     capacity hint of the queue
 //   mode    i = inline executor (first producer turns into the consumer), a = asynchronous
-//   faults  string over {0,1}: the k-th call of invoke() is refused iff faults[k] == '1'
+//   faults  string over {o,f}: the k-th call of invoke() is refused iff faults[k] == 'f'
 //           (attempts beyond the string are accepted)  --  SubmitOutcome of EQ.tla
 //   retry   1: a thread whose execute()/signal_push_event() returned != 0 calls
 //           signal_push_event() until it returns 0 before it goes on
@@ -76,7 +76,7 @@ struct ScriptedExecutor : public ::babylon::Executor {
 
   virtual int invoke(::babylon::MoveOnlyFunction<void(void)>&& function) noexcept override {
     size_t k = attempts++;
-    bool refuse = k < faults.size() && faults[k] == '1';
+    bool refuse = k < faults.size() && faults[k] == 'f';
     last_refused = refuse;
     vsched::eventf(true, "\"k\":\"sub\",\"att\":%zu,\"ok\":%s", k, refuse ? "false" : "true");
     if (refuse) return -1;
@@ -132,7 +132,7 @@ void run_thread(Ctx& c, const std::string& ops) {
 void scenario_eq(const vrun::Params& p) {
   std::string mode = p.str("mode", "a");
   std::string faults = p.str("faults", "");
-  if (faults == "-") faults = "";
+  if (faults == "n" || faults == "-") faults = "";
   std::string prog = p.str("prog", "e.e_j");
   bool retry = p.get("retry", 1) != 0;
   std::vector<std::string> threads;
@@ -196,7 +196,7 @@ void scenario_eq(const vrun::Params& p) {
 }
 
 struct Reg {
-  Reg() { vrun::add("eq", scenario_eq, "cap=2,mode=a,faults=-,retry=1,prog=e.e_j"); }
+  Reg() { vrun::add("eq", scenario_eq, "cap=2,mode=a,faults=n,retry=1,prog=e.e_j"); }
 } reg;
 
 } // namespace
